@@ -370,3 +370,410 @@ Proof.
   assert (H2 : 0 <= c * c) by apply Rle_0_sqr.
   pose proof (Rmult_le_pos _ _ H2 H1). lra.
 Qed.
+
+(* ------------------------------------------------------------------ constant + zeroth, zeroth *)
+Lemma constant_zeroth_entries_inr eps c cz nb : nb_inr (length nb) nb ->
+  Forall (inr (length nb)) (@constant_zeroth_entries ROps eps c cz nb).
+Proof.
+  intros H. unfold constant_zeroth_entries. apply Forall_forall. intros e He. apply in_flat_map in He. destruct He as [[i row] [Hir He]].
+  apply in_indexed in Hir. destruct Hir as [Hi Hrow]. unfold nb_inr in H. rewrite Forall_forall in H. specialize (H row Hrow).
+  cbn [fst snd] in He. destruct He as [<-|[<-|He]]; [split; cbn; auto|split; cbn; auto|].
+  pose proof (const_row_inr (length nb) (@sq ROps c) i row Hi H) as HF. rewrite Forall_forall in HF. apply HF, He.
+Qed.
+Lemma ES_constant_zeroth eps c cz nb f g :
+  ES (@constant_zeroth_entries ROps eps c cz nb) f g =
+  ES (@constant_entries ROps eps c nb) f g + cz * cz * sumR (map (fun i => f i * g i) (seq 0 (length nb))).
+Proof.
+  unfold constant_zeroth_entries, constant_entries. rewrite !ES_flat_map.
+  rewrite <- (sum_indexed_fst (fun i => f i * g i) nb), <- sumR_map_scal, <- sumR_map_add.
+  apply sumR_map_ext. intros [i row] _. cbn [fst snd]. rewrite !ES_cons. cbn [fst snd]. unfold sq. cbn [mul ROps]. lra.
+Qed.
+Lemma constant_zeroth_quadratic eps c cz nb x : nb_inr (length nb) nb -> symE (edges nb) -> length x = length nb ->
+  @quad ROps (@constant_zeroth_matrix ROps eps c cz nb) x = @qf_constant_zeroth ROps eps c cz nb x.
+Proof.
+  intros HR HS HL. unfold constant_zeroth_matrix. rewrite quad_build by (apply constant_zeroth_entries_inr, HR).
+  rewrite ES_constant_zeroth, (norm2_seq x _ HL).
+  rewrite <- (quad_build (length nb)) by (apply constant_entries_inr, HR).
+  fold (@constant_matrix ROps eps c nb). rewrite constant_quadratic by auto.
+  unfold qf_constant_zeroth, sq. cbn [add mul ROps]. tr. lra.
+Qed.
+Lemma constant_zeroth_symmetric eps c cz nb : nb_inr (length nb) nb -> symE (edges nb) -> forall a b,
+  (a < length nb)%nat -> (b < length nb)%nat ->
+  @mget ROps (@constant_zeroth_matrix ROps eps c cz nb) a b = @mget ROps (@constant_zeroth_matrix ROps eps c cz nb) b a.
+Proof.
+  intros HR HS. apply build_symmetric; [apply constant_zeroth_entries_inr, HR|].
+  intros f g. rewrite !ES_constant_zeroth, (ES_constant_sym eps c nb HS f g). f_equal. f_equal. apply sumR_map_ext. intros; lra.
+Qed.
+Lemma qf_constant_zeroth_lower eps c cz nb x : eps * @norm2 ROps x <= @qf_constant_zeroth ROps eps c cz nb x.
+Proof.
+  unfold qf_constant_zeroth, sq. cbn [add mul ROps]. pose proof (qf_constant_lower eps c nb x). pose proof (norm2_nonneg x).
+  assert (0 <= cz * cz) by apply Rle_0_sqr. pose proof (Rmult_le_pos (cz * cz) (@norm2 ROps x)). tr. lra.
+Qed.
+
+Lemma zeroth_entries_inr c n : Forall (inr n) (@zeroth_entries ROps c n).
+Proof.
+  unfold zeroth_entries. apply Forall_forall. intros e He. apply in_map_iff in He. destruct He as [i [<- Hi]].
+  apply in_seq in Hi. split; cbn; lia.
+Qed.
+Lemma ES_zeroth c n f g : ES (@zeroth_entries ROps c n) f g = c * c * sumR (map (fun i => f i * g i) (seq 0 n)).
+Proof.
+  unfold zeroth_entries, ES. rewrite map_map, <- sumR_map_scal. apply sumR_map_ext. intros i _. cbn. lra.
+Qed.
+Lemma zeroth_quadratic c n x : length x = n -> @quad ROps (@zeroth_matrix ROps c n) x = @qf_zeroth ROps c x.
+Proof.
+  intros HL. unfold zeroth_matrix. rewrite quad_build by apply zeroth_entries_inr. rewrite ES_zeroth, (norm2_seq x n HL).
+  reflexivity.
+Qed.
+Lemma zeroth_symmetric c n a b : (a < n)%nat -> (b < n)%nat ->
+  @mget ROps (@zeroth_matrix ROps c n) a b = @mget ROps (@zeroth_matrix ROps c n) b a.
+Proof.
+  apply build_symmetric; [apply zeroth_entries_inr|]. intros f g. rewrite !ES_zeroth. f_equal. apply sumR_map_ext. intros; lra.
+Qed.
+
+(* ------------------------------------------------------------------ brightness zeroth *)
+Lemma bz_entries_inr w : Forall (inr (length w)) (@bz_entries ROps w).
+Proof.
+  unfold bz_entries. apply Forall_forall. intros e He. apply in_map_iff in He. destruct He as [[i wi] [<- Hi]].
+  apply in_indexed in Hi. destruct Hi as [Hi _]. split; cbn; tr; lia.
+Qed.
+Lemma sum_indexed_combine (F : R -> R -> R) (w x : list R) s : length x = length w ->
+  sumR (map (fun iw => F (snd iw) (nth (fst iw - s) x 0)) (combine (seq s (length w)) w)) = sumR (map (fun wx => F (fst wx) (snd wx)) (combine w x)).
+Proof.
+  revert x s. induction w as [|a w IH]; intros [|b x] s HL; cbn in HL; try lia; cbn [length seq combine map sumR fst snd]; auto.
+  replace (s - s)%nat with 0%nat by lia. cbn [nth]. f_equal.
+  rewrite <- (IH x (S s)) by lia. apply sumR_map_ext. intros [i wi] Hi. apply in_combine_l in Hi. apply in_seq in Hi. cbn [fst snd].
+  replace (i - s)%nat with (S (i - S s)) by lia. reflexivity.
+Qed.
+Lemma bz_quadratic w x : length x = length w -> @quad ROps (@bz_matrix ROps w) x = @qf_bz ROps w x.
+Proof.
+  intros HL. unfold bz_matrix. rewrite quad_build by apply bz_entries_inr.
+  unfold qf_bz. rewrite sumT_sumR. unfold bz_entries, ES. rewrite map_map. cbn [fst snd].
+  transitivity (sumR (map (fun wx : R * R => (fun a b => a * a * (b * b)) (fst wx) (snd wx)) (combine w x))).
+  - cbv beta. tr. rewrite <- (sum_indexed_combine (fun a b => a * a * (b * b)) w x 0 HL). unfold indexed.
+    apply sumR_map_ext. intros [i wi] _. cbn [fst snd]. rewrite Nat.sub_0_r. unfold sq, xh. cbn [mul ROps]. lra.
+  - apply sumR_map_ext. intros [a b] _. unfold sq. cbn [fst snd mul ROps]. lra.
+Qed.
+Lemma bz_symmetric w a b : (a < length w)%nat -> (b < length w)%nat ->
+  @mget ROps (@bz_matrix ROps w) a b = @mget ROps (@bz_matrix ROps w) b a.
+Proof.
+  apply build_symmetric; [apply bz_entries_inr|]. intros f g. unfold bz_entries, ES. rewrite !map_map.
+  apply sumR_map_ext. intros; cbn; lra.
+Qed.
+Lemma qf_bz_nonneg w x : 0 <= @qf_bz ROps w x.
+Proof.
+  unfold qf_bz. rewrite sumT_sumR. apply sumR_map_nonneg. intros [a b]. unfold sq. cbn [fst snd mul ROps].
+  apply Rmult_le_pos; apply Rle_0_sqr.
+Qed.
+
+(* ------------------------------------------------------------------ weighted (adaptive) scheme *)
+Lemma nthT_map_sq (w : list R) k : @nthT ROps (map (@sq ROps) w) k = xh w k * xh w k.
+Proof.
+  unfold nthT, xh, zero. cbn [ofZ ROps]. replace (IZR 0) with (@sq ROps 0) at 1 by (unfold sq; cbn; lra).
+  rewrite map_nth. reflexivity.
+Qed.
+Lemma ES_weighted_row rw i row f g :
+  ES (@weighted_row ROps rw i row) f g =
+  sumR (map (fun k => @nthT ROps rw k * (f i * g i + f k * g k - f i * g k - f k * g i)) row).
+Proof.
+  unfold weighted_row. rewrite ES_flat_map. apply sumR_map_ext. intros k _. unfold ES. cbn. lra.
+Qed.
+Lemma weighted_row_inr n rw i row : (i < n)%nat -> Forall (fun k => (k < n)%nat) row -> Forall (inr n) (@weighted_row ROps rw i row).
+Proof.
+  intros Hi HF. unfold weighted_row. apply Forall_forall. intros e He. apply in_flat_map in He. destruct He as [k [Hk He]].
+  rewrite Forall_forall in HF. specialize (HF k Hk). cbn in He. destruct He as [<-|[<-|[<-|[<-|[]]]]]; split; cbn; auto.
+Qed.
+Lemma weighted_entries_inr eps w nb : length nb = length w -> nb_inr (length w) nb ->
+  Forall (inr (length w)) (@weighted_entries ROps eps w nb).
+Proof.
+  intros HL H. unfold weighted_entries. rewrite <- HL. fold (indexed nb). rewrite <- HL in H.
+  apply Forall_forall. intros e He. apply in_flat_map in He. destruct He as [[i row] [Hir He]].
+  apply in_indexed in Hir. destruct Hir as [Hi Hrow]. unfold nb_inr in H. rewrite Forall_forall in H. specialize (H row Hrow).
+  cbn [fst snd] in He. destruct He as [<-|He]; [split; cbn; auto|].
+  pose proof (weighted_row_inr (length nb) (map (@sq ROps) w) i row Hi H) as HF. rewrite Forall_forall in HF. apply HF, He.
+Qed.
+Lemma ES_weighted eps w nb f g : length nb = length w ->
+  ES (@weighted_entries ROps eps w nb) f g =
+  eps * sumR (map (fun i => f i * g i) (seq 0 (length nb)))
+  + sumR (map (fun p => xh w (snd p) * xh w (snd p) *
+                        (f (fst p) * g (fst p) + f (snd p) * g (snd p) - f (fst p) * g (snd p) - f (snd p) * g (fst p))) (edges nb)).
+Proof.
+  intros HL. unfold weighted_entries. rewrite <- HL. fold (indexed nb). rewrite ES_flat_map.
+  rewrite <- (sum_indexed_fst (fun i => f i * g i) nb), sum_edges, <- sumR_map_scal, <- sumR_map_add.
+  apply sumR_map_ext. intros [i row] _. cbn [fst snd]. rewrite ES_cons, ES_weighted_row. cbn [fst snd].
+  f_equal; [lra|]. apply sumR_map_ext. intros k _. rewrite nthT_map_sq. reflexivity.
+Qed.
+Lemma weighted_symmetric eps w nb : length nb = length w -> nb_inr (length w) nb -> forall a b,
+  (a < length w)%nat -> (b < length w)%nat ->
+  @mget ROps (@weighted_matrix ROps eps w nb) a b = @mget ROps (@weighted_matrix ROps eps w nb) b a.
+Proof.
+  intros HL HR. apply build_symmetric; [apply weighted_entries_inr; auto|].
+  intros f g. rewrite !ES_weighted by exact HL. f_equal; [f_equal|]; apply sumR_map_ext; intros; lra.
+Qed.
+(* directed form: needs no symmetry of the neighbour lists *)
+Lemma weighted_quadratic_directed eps w nb x : length nb = length w -> nb_inr (length w) nb -> length x = length w ->
+  @quad ROps (@weighted_matrix ROps eps w nb) x =
+  eps * @norm2 ROps x + sumR (map (fun p => xh w (snd p) * xh w (snd p) * d2 x p) (edges nb)).
+Proof.
+  intros HL HR HX. unfold weighted_matrix. rewrite quad_build by (apply weighted_entries_inr; auto).
+  rewrite ES_weighted by exact HL. rewrite (norm2_seq x (length nb)) by (tr; lia).
+  f_equal. apply sumR_map_ext. intros [i k] _. unfold d2. cbn [fst snd]. lra.
+Qed.
+Lemma weighted_lower eps w nb x : length nb = length w -> nb_inr (length w) nb -> length x = length w ->
+  eps * @norm2 ROps x <= @quad ROps (@weighted_matrix ROps eps w nb) x.
+Proof.
+  intros HL HR HX. rewrite weighted_quadratic_directed by auto.
+  assert (0 <= sumR (map (fun p => xh w (snd p) * xh w (snd p) * d2 x p) (edges nb))).
+  { apply sumR_map_nonneg. intros p. apply Rmult_le_pos; [apply Rle_0_sqr | unfold d2; apply Rle_0_sqr]. }
+  lra.
+Qed.
+Lemma weighted_quadratic eps w nb x : length nb = length w -> nb_inr (length w) nb -> symE (edges nb) -> length x = length w ->
+  @quad ROps (@weighted_matrix ROps eps w nb) x = @qf_weighted ROps eps w nb x.
+Proof.
+  intros HL HR HS HX. rewrite weighted_quadratic_directed by auto.
+  unfold qf_weighted. rewrite sumT_sumR. cbn [add mul ROps].
+  set (g := fun p : nat * nat => xh w (snd p) * xh w (snd p) * d2 x p).
+  set (h := fun p : nat * nat => (xh w (fst p) * xh w (fst p) + xh w (snd p) * xh w (snd p)) * d2 x p).
+  assert (E1 : 2 * sumR (map g (edges nb)) = sumR (map h (edges nb))).
+  { transitivity (sumR (map g (edges nb)) + sumR (map (fun p => g (swap p)) (edges nb))).
+    - rewrite <- (symE_sum g _ HS). lra.
+    - rewrite <- sumR_map_add. apply sumR_map_ext. intros [i k] _. unfold g, h, d2, swap. cbn [fst snd]. lra. }
+  assert (E2 : sumR (map h (edges nb)) = 2 * sumR (map h (upairs nb))).
+  { unfold upairs. apply symE_upairs; auto.
+    - intros [i k]. unfold h, d2, swap. cbn [fst snd]. lra.
+    - intros a. unfold h, d2. cbn [fst snd]. lra. }
+  assert (E3 : sumR (map h (upairs nb)) =
+               sumR (map (fun p => (@sq ROps (@nthT ROps w (fst p)) + @sq ROps (@nthT ROps w (snd p))) * @diff2 ROps x p) (upairs nb))).
+  { apply sumR_map_ext. intros p _. reflexivity. }
+  tr. lra.
+Qed.
+Lemma qf_weighted_lower eps w nb x : eps * @norm2 ROps x <= @qf_weighted ROps eps w nb x.
+Proof.
+  unfold qf_weighted. rewrite sumT_sumR. cbn [add mul ROps].
+  assert (0 <= sumR (map (fun p => (@sq ROps (@nthT ROps w (fst p)) + @sq ROps (@nthT ROps w (snd p))) * @diff2 ROps x p) (upairs nb))).
+  { apply sumR_map_nonneg. intros p. apply Rmult_le_pos.
+    - unfold sq. cbn [mul ROps]. pose proof (Rle_0_sqr (@nthT ROps w (fst p))). pose proof (Rle_0_sqr (@nthT ROps w (snd p))). unfold Rsqr in *. lra.
+    - change (@diff2 ROps x p) with (d2 x p). unfold d2. apply Rle_0_sqr. }
+  tr. lra.
+Qed.
+
+(* ------------------------------------------------------------------ statements with the boolean hypotheses *)
+Definition square_n (n : nat) (H : Rmat) : Prop := length H = n /\ Forall (fun r => length r = n) H.
+Definition symmetric_n (n : nat) (H : Rmat) : Prop := forall a b, (a < n)%nat -> (b < n)%nat -> @mget ROps H a b = @mget ROps H b a.
+Definition nonzero (x : list R) : Prop := exists i, nth i x 0 <> 0.
+
+Lemma nb_ok_split nb : nb_ok nb = true -> nb_inr (length nb) nb /\ symE (edges nb).
+Proof.
+  unfold nb_ok. intros H. apply andb_true_iff in H. destruct H as [H1 H2].
+  split; [apply nb_in_range_inr, H1 | apply nb_symmetric_symE, H2].
+Qed.
+
+Lemma qf_constant_meaning eps c nb x :
+  @qf_constant ROps eps c nb x =
+  c * c * sumR (map (fun p => (nth (fst p) x 0 - nth (snd p) x 0) * (nth (fst p) x 0 - nth (snd p) x 0)) (upairs nb))
+  + eps * sumR (map (fun v => v * v) x).
+Proof. unfold qf_constant. rewrite sumT_sumR, norm2_R. reflexivity. Qed.
+Lemma qf_weighted_meaning eps w nb x :
+  @qf_weighted ROps eps w nb x =
+  sumR (map (fun p => (nth (fst p) w 0 * nth (fst p) w 0 + nth (snd p) w 0 * nth (snd p) w 0)
+                      * ((nth (fst p) x 0 - nth (snd p) x 0) * (nth (fst p) x 0 - nth (snd p) x 0))) (upairs nb))
+  + eps * sumR (map (fun v => v * v) x).
+Proof. unfold qf_weighted. rewrite sumT_sumR, norm2_R. reflexivity. Qed.
+
+Lemma T_constant_size eps c nb : square_n (length nb) (@constant_matrix ROps eps c nb).
+Proof. apply build_wfm. Qed.
+Lemma T_constant_qf eps c nb x : nb_ok nb = true -> length x = length nb ->
+  @quad ROps (@constant_matrix ROps eps c nb) x = @qf_constant ROps eps c nb x.
+Proof. intros H HL. apply nb_ok_split in H. destruct H. apply constant_quadratic; auto. Qed.
+Lemma T_constant_sym eps c nb : nb_ok nb = true -> symmetric_n (length nb) (@constant_matrix ROps eps c nb).
+Proof. intros H. apply nb_ok_split in H. destruct H. unfold symmetric_n. apply constant_symmetric; auto. Qed.
+Lemma T_constant_pd eps c nb x : 0 < eps -> nb_ok nb = true -> length x = length nb -> nonzero x ->
+  0 < @quad ROps (@constant_matrix ROps eps c nb) x.
+Proof.
+  intros He H HL Hx. rewrite T_constant_qf by auto. pose proof (qf_constant_lower eps c nb x). pose proof (norm2_pos x Hx).
+  pose proof (Rmult_lt_0_compat _ _ He H1). lra.
+Qed.
+
+Lemma T_constant_zeroth_size eps c cz nb : square_n (length nb) (@constant_zeroth_matrix ROps eps c cz nb).
+Proof. apply build_wfm. Qed.
+Lemma T_constant_zeroth_qf eps c cz nb x : nb_ok nb = true -> length x = length nb ->
+  @quad ROps (@constant_zeroth_matrix ROps eps c cz nb) x = @qf_constant_zeroth ROps eps c cz nb x.
+Proof. intros H HL. apply nb_ok_split in H. destruct H. apply constant_zeroth_quadratic; auto. Qed.
+Lemma T_constant_zeroth_sym eps c cz nb : nb_ok nb = true -> symmetric_n (length nb) (@constant_zeroth_matrix ROps eps c cz nb).
+Proof. intros H. apply nb_ok_split in H. destruct H. unfold symmetric_n. apply constant_zeroth_symmetric; auto. Qed.
+Lemma T_constant_zeroth_pd eps c cz nb x : 0 < eps -> nb_ok nb = true -> length x = length nb -> nonzero x ->
+  0 < @quad ROps (@constant_zeroth_matrix ROps eps c cz nb) x.
+Proof.
+  intros He H HL Hx. rewrite T_constant_zeroth_qf by auto. pose proof (qf_constant_zeroth_lower eps c cz nb x). pose proof (norm2_pos x Hx).
+  pose proof (Rmult_lt_0_compat _ _ He H1). lra.
+Qed.
+
+Lemma T_zeroth_size c n : square_n n (@zeroth_matrix ROps c n).
+Proof. apply build_wfm. Qed.
+Lemma T_zeroth_sym c n : symmetric_n n (@zeroth_matrix ROps c n).
+Proof. unfold symmetric_n. intros. apply zeroth_symmetric; auto. Qed.
+Lemma T_zeroth_qf c n x : length x = n -> @quad ROps (@zeroth_matrix ROps c n) x = c * c * sumR (map (fun v => v * v) x).
+Proof. intros HL. rewrite zeroth_quadratic by auto. unfold qf_zeroth. rewrite norm2_R. reflexivity. Qed.
+Lemma T_zeroth_pd c n x : c <> 0 -> length x = n -> nonzero x -> 0 < @quad ROps (@zeroth_matrix ROps c n) x.
+Proof.
+  intros Hc HL Hx. rewrite T_zeroth_qf by auto. rewrite <- norm2_R. pose proof (norm2_pos x Hx).
+  assert (0 < c * c) by nra. apply Rmult_lt_0_compat; auto.
+Qed.
+
+Lemma T_bz_size w : square_n (length w) (@bz_matrix ROps w).
+Proof. apply build_wfm. Qed.
+Lemma T_bz_sym w : symmetric_n (length w) (@bz_matrix ROps w).
+Proof. unfold symmetric_n. intros. apply bz_symmetric; auto. Qed.
+Lemma T_bz_psd w x : length x = length w -> 0 <= @quad ROps (@bz_matrix ROps w) x.
+Proof. intros HL. rewrite bz_quadratic by auto. apply qf_bz_nonneg. Qed.
+Lemma T_bz_qf w x : length x = length w ->
+  @quad ROps (@bz_matrix ROps w) x = sumR (map (fun wx => fst wx * fst wx * (snd wx * snd wx)) (combine w x)).
+Proof. intros HL. rewrite bz_quadratic by auto. unfold qf_bz. rewrite sumT_sumR. reflexivity. Qed.
+
+Lemma wnb_ok_split (w : list R) nb : wnb_ok w nb = true -> length nb = length w /\ nb_inr (length w) nb /\ symE (edges nb).
+Proof.
+  unfold wnb_ok. intros H. apply andb_true_iff in H. destruct H as [H1 H2]. apply Nat.eqb_eq in H1.
+  apply nb_ok_split in H2. destruct H2 as [H2 H3]. rewrite H1 in H2. auto.
+Qed.
+Lemma T_weighted_size eps w nb : square_n (length w) (@weighted_matrix ROps eps w nb).
+Proof. apply build_wfm. Qed.
+Lemma T_weighted_qf eps w nb x : wnb_ok w nb = true -> length x = length w ->
+  @quad ROps (@weighted_matrix ROps eps w nb) x = @qf_weighted ROps eps w nb x.
+Proof. intros H HL. apply wnb_ok_split in H. destruct H as [H1 [H2 H3]]. apply weighted_quadratic; auto. Qed.
+Lemma T_weighted_sym eps w nb : wnb_ok w nb = true -> symmetric_n (length w) (@weighted_matrix ROps eps w nb).
+Proof. intros H. apply wnb_ok_split in H. destruct H as [H1 [H2 H3]]. unfold symmetric_n. apply weighted_symmetric; auto. Qed.
+Lemma T_weighted_pd eps w nb x : 0 < eps -> wnb_ok w nb = true -> length x = length w -> nonzero x ->
+  0 < @quad ROps (@weighted_matrix ROps eps w nb) x.
+Proof.
+  intros He H HL Hx. apply wnb_ok_split in H. destruct H as [H1 [H2 H3]].
+  pose proof (weighted_lower eps w nb x H1 H2 HL). pose proof (norm2_pos x Hx). pose proof (Rmult_lt_0_compat _ _ He H0). lra.
+Qed.
+(* the weights the adaptive scheme reports are squares, hence non-negative, one per signal *)
+Lemma T_adaptive_weights inner outer s :
+  length (@adaptive_weights ROps inner outer s) = length s /\ Forall (fun w => 0 <= w) (@adaptive_weights ROps inner outer s).
+Proof.
+  unfold adaptive_weights. split; [apply map_length|]. apply Forall_forall. intros w Hw. apply in_map_iff in Hw.
+  destruct Hw as [v [<- _]]. unfold sq. cbn [mul add sub ROps]. apply Rle_0_sqr.
+Qed.
+
+(* ------------------------------------------------------------------ block-diagonal assembly *)
+Notation block_diagR := (@block_diag ROps).
+Lemma wfm_width n (M : Rmat) : wfm n M -> @width ROps M = n.
+Proof.
+  intros [HL HF]. unfold width. destruct M as [|r M]; cbn in *; [lia|]. inversion HF; subst; auto.
+Qed.
+Lemma nthT_zeros m b : @nthT ROps (@zeros ROps m) b = 0.
+Proof. unfold nthT. apply nth_zeros_R. Qed.
+Lemma block_diag_cons (B : Rmat) t :
+  block_diagR (B :: t) = map (fun r => r ++ @zeros ROps (@width ROps (block_diagR t))) B
+                         ++ map (fun r => @zeros ROps (@width ROps B) ++ r) (block_diagR t).
+Proof. reflexivity. Qed.
+Fixpoint total (Bs : list Rmat) : nat := match Bs with [] => 0%nat | B :: t => (length B + total t)%nat end.
+Definition blocks_square (Bs : list Rmat) : Prop := Forall (fun B => wfm (length B) B) Bs.
+
+Lemma block_diag_wfm Bs : blocks_square Bs -> wfm (total Bs) (block_diagR Bs).
+Proof.
+  induction 1 as [|B t HB HT IH]; [split; [reflexivity|constructor]|].
+  rewrite block_diag_cons. rewrite (wfm_width _ _ IH), (wfm_width _ _ HB).
+  destruct HB as [_ HB], IH as [IL IF]. cbn [total]. split.
+  - rewrite app_length, !map_length. tr. lia.
+  - apply Forall_app. split; apply Forall_forall; intros r Hr; apply in_map_iff in Hr; destruct Hr as [r0 [<- Hr0]];
+      rewrite app_length; unfold zeros; rewrite repeat_length.
+    + rewrite Forall_forall in HB. pose proof (HB _ Hr0) as E. tr. rewrite E. reflexivity.
+    + rewrite Forall_forall in IF. pose proof (IF _ Hr0) as E. tr. rewrite E. reflexivity.
+Qed.
+
+Lemma mget_overflow (M : Rmat) a b : (length M <= a)%nat -> @mget ROps M a b = 0.
+Proof. intros H. unfold mget. rewrite nth_overflow by exact H. unfold nthT. destruct b; reflexivity. Qed.
+
+Lemma block_entry_ok Bs : blocks_square Bs -> forall a b, @mget ROps (block_diagR Bs) a b = @block_entry ROps Bs a b.
+Proof.
+  induction 1 as [|B t HB HT IH]; intros a b.
+  - cbn. unfold mget, nthT. destruct a, b; reflexivity.
+  - pose proof (block_diag_wfm t HT) as HW.
+    rewrite block_diag_cons, (wfm_width _ _ HW), (wfm_width _ _ HB). cbn [block_entry]. tr.
+    set (n := length B). set (N := total t).
+    destruct (Nat.ltb_spec a n) as [Ha|Ha]; cbn [andb orb].
+    + (* row of the first block *)
+      unfold mget at 1. rewrite app_nth1 by (rewrite map_length; exact Ha).
+      rewrite (nth_indep _ [] ((fun r => r ++ @zeros ROps N) [])) by (rewrite map_length; exact Ha).
+      rewrite (map_nth (fun r => r ++ @zeros ROps N)).
+      assert (HLr : length (nth a B []) = n) by (apply (wfm_row n); auto).
+      destruct (Nat.ltb_spec b n) as [Hb|Hb].
+      * unfold nthT. rewrite app_nth1 by (tr; lia). reflexivity.
+      * unfold nthT. rewrite app_nth2 by (tr; lia). apply nth_zeros_R.
+    + unfold mget at 1. rewrite app_nth2 by (rewrite map_length; exact Ha). rewrite map_length. fold n.
+      destruct (Nat.ltb_spec (a - n) N) as [Ha2|Ha2].
+      * rewrite (nth_indep _ [] ((fun r => @zeros ROps n ++ r) [])) by (rewrite map_length; destruct HW as [HWl _]; tr; lia).
+        rewrite (map_nth (fun r => @zeros ROps n ++ r)).
+        assert (Hz : length (@zeros ROps n) = n) by (unfold zeros; apply repeat_length).
+        destruct (Nat.ltb_spec b n) as [Hb|Hb].
+        -- unfold nthT. rewrite app_nth1 by (tr; lia). apply nth_zeros_R.
+        -- unfold nthT. rewrite app_nth2 by (tr; lia). rewrite Hz. rewrite <- IH. reflexivity.
+      * rewrite nth_overflow by (rewrite map_length; destruct HW as [HWl _]; tr; lia).
+        destruct (Nat.ltb_spec b n) as [Hb|Hb]; [unfold nthT; destruct b; reflexivity|].
+        rewrite <- IH, mget_overflow by (destruct HW as [HWl _]; tr; lia). unfold nthT. destruct b; reflexivity.
+Qed.
+
+(* an object without regularization contributes an all-zero block *)
+Lemma none_block_zero p a b : @mget ROps (@obj_matrix ROps (p, None)) a b = 0.
+Proof.
+  unfold obj_matrix. cbn [fst snd]. unfold mget, mzeros.
+  destruct (Nat.ltb_spec a p) as [H|H].
+  - rewrite (nth_indep _ [] (@zeros ROps p)) by (rewrite repeat_length; exact H). rewrite nth_repeat. apply nthT_zeros.
+  - rewrite nth_overflow by (rewrite repeat_length; exact H). unfold nthT. destruct b; reflexivity.
+Qed.
+Lemma none_block_size p : square_n p (@obj_matrix ROps (p, None)).
+Proof. apply mzeros_wfm. Qed.
+
+(* quadratic form of the assembly = sum of the blocks' quadratic forms on the corresponding slices *)
+Lemma Rdot_app_zeros (r : list R) N x : Rdot (r ++ @zeros ROps N) x = Rdot r (firstn (length r) x).
+Proof.
+  unfold Rdot. revert x. induction r as [|a r IH]; intros x; cbn [app length firstn].
+  - fold (Rdot (@zeros ROps N) x). rewrite Rdot_zeros. reflexivity.
+  - destruct x as [|b x]; cbn [combine map sumR fst snd]; auto. rewrite IH. reflexivity.
+Qed.
+Lemma Rdot_zeros_app n (r : list R) x : Rdot (@zeros ROps n ++ r) x = Rdot r (skipn n x).
+Proof.
+  unfold Rdot, zeros, zero. cbn [ofZ ROps]. revert x. induction n as [|n IH]; intros x; cbn [repeat app skipn]; auto.
+  destruct x as [|b x]; cbn [combine map sumR fst snd].
+  - destruct r; reflexivity.
+  - rewrite IH. lra.
+Qed.
+Lemma combine_app_l {A B} (x : list A) (l1 l2 : list B) :
+  combine x (l1 ++ l2) = combine (firstn (length l1) x) l1 ++ combine (skipn (length l1) x) l2.
+Proof.
+  revert x. induction l1 as [|a l1 IH]; intros x; cbn [app length firstn skipn combine]; auto.
+  destruct x as [|b x]; cbn [combine app]; auto. rewrite IH. reflexivity.
+Qed.
+Lemma Rbil_block (B : Rmat) (acc : Rmat) n N x y : wfm n B -> wfm N acc ->
+  Rbil x (map (fun r => r ++ @zeros ROps N) B ++ map (fun r => @zeros ROps n ++ r) acc) y
+  = Rbil (firstn n x) B (firstn n y) + Rbil (skipn n x) acc (skipn n y).
+Proof.
+  intros [HBl HBf] [HAl HAf]. unfold Rbil. rewrite combine_app_l, map_app, sumR_app, map_length. tr. rewrite HBl. f_equal.
+  - clear HBl. revert HBf. generalize (firstn n x) as x1. induction B as [|r B IH]; intros x1 HF; destruct x1 as [|a x1]; cbn [map combine sumR fst snd]; auto.
+    apply Forall_cons_iff in HF. destruct HF as [Hr HF']. rewrite IH by exact HF'. rewrite Rdot_app_zeros. tr. rewrite Hr. reflexivity.
+  - clear HAl HAf. generalize (skipn n x) as x2. induction acc as [|r acc IH]; intros x2; destruct x2 as [|a x2]; cbn [map combine sumR fst snd]; auto.
+    rewrite IH, Rdot_zeros_app. reflexivity.
+Qed.
+Fixpoint block_quad (Bs : list Rmat) (x : list R) : R :=
+  match Bs with
+  | [] => 0
+  | B :: t => @quad ROps B (firstn (length B) x) + block_quad t (skipn (length B) x)
+  end.
+Lemma block_diag_quad Bs : blocks_square Bs -> forall x, @quad ROps (block_diagR Bs) x = block_quad Bs x.
+Proof.
+  induction 1 as [|B t HB HT IH]; intros x.
+  - unfold quad. rewrite bil_R. destruct x; reflexivity.
+  - pose proof (block_diag_wfm t HT) as HW. cbn [block_quad]. rewrite <- IH.
+    unfold quad. rewrite !bil_R. rewrite block_diag_cons, (wfm_width _ _ HW), (wfm_width _ _ HB).
+    apply Rbil_block; auto.
+Qed.
+Definition blocks_sq (Bs : list Rmat) : Prop := Forall (fun B => Forall (fun r => length r = length B) B) Bs.
+Lemma blocks_sq_square Bs : blocks_sq Bs -> blocks_square Bs.
+Proof. unfold blocks_sq, blocks_square, wfm. apply Forall_impl. intros B H. split; auto. Qed.
+Lemma T_block_entry Bs : blocks_sq Bs -> forall a b, @mget ROps (block_diagR Bs) a b = @block_entry ROps Bs a b.
+Proof. intros H. apply block_entry_ok, blocks_sq_square, H. Qed.
+Lemma T_block_quad Bs : blocks_sq Bs -> forall x, @quad ROps (block_diagR Bs) x = block_quad Bs x.
+Proof. intros H. apply block_diag_quad, blocks_sq_square, H. Qed.
+Lemma T_block_size Bs : blocks_sq Bs -> square_n (total Bs) (block_diagR Bs).
+Proof. intros H. apply block_diag_wfm, blocks_sq_square, H. Qed.
